@@ -389,7 +389,7 @@ PAYLOADS = [
     "bytes-array", "str-array", "datetime", "array-for-seq",
 ]
 STRUCTS = ["trunc-all", "trunc-last", "extra", "swap", "nonlist-none", "nonlist-int", "tuple", "generator"]
-NAMES = ["rename", "inputs", "extra-unknown", "inputs-only", "reverse"]
+NAMES = ["rename", "inputs", "extra-unknown", "inputs-only", "reverse", "drop-first"]
 STAGES = ["ctor", "names", "run"]
 
 
@@ -484,6 +484,8 @@ class Injector:
                     names = names + ["__no_such_value__"]
                 elif mode == "reverse":
                     names = names[::-1]
+                elif mode == "drop-first":
+                    names = names[1:]        # the result lacks an output that is not the last one
                 self.rec["names"] = names
                 return names
 
@@ -511,6 +513,8 @@ class Injector:
                     outs = outs + [outs[0] if outs else np.zeros((2,), np.float32)]
                 elif mode == "reverse":
                     outs = outs[::-1]      # same association name -> value, other dictionary order
+                elif mode == "drop-first":
+                    outs = outs[1:]
                 if "payload" in f and outs:
                     i = f.get("idx", 0) % len(outs)
                     outs[i] = payload(f["payload"], outs[i])
